@@ -266,6 +266,9 @@ class OutgoingRIB(Cache):
                 prev_route_index,
                 None,
             )
+            # the same route may still be queued under attribute sets announced before that one
+            for other_families in attr_af_nlri.values():
+                other_families.get(route_family, RIBdict({})).pop(prev_route_index, None)
             # Also remove from _new_nlri since we're withdrawing it
             new_nlri.pop(route_index, None)
 
@@ -336,6 +339,17 @@ class OutgoingRIB(Cache):
         # Note: Cancel logic removed - announce does NOT cancel pending withdraw
         # This allows withdraw+announce sequences to both be sent
         # See plan/plan-announce-cancels-withdraw-optimization.md for future optimization
+
+        # announces are sent grouped by attribute set, in the order the sets were first queued: when this route is
+        # already queued and its new set was queued before, what is queued for the route under later sets would be
+        # sent after this announce and win at the peer (A/x, A/y, A/x)
+        if route_index in new_nlri and route_attr_index in attr_af_nlri:
+            later = False
+            for other_attr_index, other_families in attr_af_nlri.items():
+                if other_attr_index == route_attr_index:
+                    later = True
+                elif later:
+                    other_families.get(route_family, RIBdict({})).pop(route_index, None)
 
         # add the route to the list to be announced
         attr_af_nlri.setdefault(route_attr_index, {}).setdefault(route_family, RIBdict({}))[route_index] = route
